@@ -25,6 +25,7 @@
   OBLIGATION c12_numbers_parse_total
   OBLIGATION c12_numbers_answered
   OBLIGATION c12_numbers_exact
+  OBLIGATION c12_numbers_registered_validator
   OBLIGATION c12_numbers_id_exact
   OBLIGATION c12_numbers_violated_by_seeded_bound
 -/
@@ -198,11 +199,21 @@ theorem c12_numbers_answered (ty : NTy) (h : ty.fromSource) :
 
 /-- WHICH answer, for an integer numeral at an integer position: data (the integer itself,
     unwrapped and untruncated) exactly when it lies in the type's range and passes the `Int`
-    validator the schema registers (`i32`'s `is_i64()`: at most i64::MAX); an error otherwise. -/
+    validator the schema registers (`is_valid` of `i32`, the first integer type of
+    `add_system_types`, with the guard the source has); an error otherwise. -/
 theorem c12_numbers_exact (t : Entry) (ht : t ∈ table) (n : Int) :
-    (inIntDomain t.name n ∧ n ≤ i64Max → numAnswer (.int t) n = .data (.int n)) ∧
-    (¬ (inIntDomain t.name n ∧ n ≤ i64Max) → numAnswer (.int t) n = .error) :=
+    (inIntDomain t.name n ∧ registeredIntValid (.int n) = true → numAnswer (.int t) n = .data (.int n)) ∧
+    (¬ (inIntDomain t.name n ∧ registeredIntValid (.int n) = true) → numAnswer (.int t) n = .error) :=
   ⟨fun h => numAnswer_int_accept t ht n h.1 h.2, numAnswer_int_reject t ht n⟩
+
+/-- … where that registered validator lets through either exactly the integers `as_i64()` reads
+    (at most i64::MAX: the pinned tree, finding C07-int-validator-of-first-registered) or every
+    integer a JSON number holds (the repaired guard `is_i64() || is_u64()`): nothing else passes
+    the source extraction without breaking this obligation. -/
+theorem c12_numbers_registered_validator :
+    (∀ i, registeredIntValid (.int i) = readableB .i64 i) ∨
+    (∀ i, registeredIntValid (.int i) = (readableB .i64 i || readableB .u64 i)) :=
+  registeredIntValid_cases
 
 example : ∃ t ∈ table, t.name = "NonZeroU16" ∧ numAnswer (.int t) 65535 = .data (.int 65535) ∧
     numAnswer (.int t) 65536 = .error ∧ numAnswer (.int t) 0 = .error := by decide
